@@ -191,6 +191,16 @@ def _model_inputs(ob, model):
     return vals
 
 
+def _values_inputs(ob, d):
+    vals = {}
+    for name, kind, lo, hi in ob.inputs:
+        v = d.get(name)
+        if v is None:
+            v = Fraction(0) if lo is None else Fraction(lo)
+        vals[name] = int(v) if kind == "int" else Fraction(v)
+    return vals
+
+
 def _concrete_inputs(vals):
     return {k: (int(v) if isinstance(v, int) else float(v)) for k, v in vals.items()}
 
@@ -233,6 +243,8 @@ class ConcreteRun:
                 if not bool(a):
                     self.assume_ok = False
             self.claims = ob.run(I)
+        except core.AssumptionFailed:
+            self.assume_ok = False
         except Exception as e:
             self.exc = e
             self.tb = traceback.format_exc()
@@ -263,12 +275,100 @@ def _solver(timeout_ms):
     return s
 
 
-def _check(s, pv):
+def _check(s, pv, limit_s=None):
     t = time.time()
-    r = str(s.check())
+    try:
+        r = str(s.check())
+    except z3.Z3Exception:
+        r = "unknown"
     pv.queries += 1
     pv.solver_s += time.time() - t
     return r
+
+
+def _sexpr_val(tok):
+    """value of a z3 get-value s-expression (numerals, (- x), (/ a b), decimals with trailing ?)"""
+    tok = tok.strip()
+    if tok.startswith("("):
+        inner = tok[1:-1].strip()
+        op, rest = inner.split(None, 1)
+        args, depth, cur = [], 0, ""
+        for ch in rest:
+            if ch == "(":
+                depth += 1
+            if ch == ")":
+                depth -= 1
+            if ch.isspace() and depth == 0:
+                if cur:
+                    args.append(cur)
+                    cur = ""
+            else:
+                cur += ch
+        if cur:
+            args.append(cur)
+        vals = [_sexpr_val(a) for a in args]
+        if op == "-":
+            return -vals[0] if len(vals) == 1 else vals[0] - vals[1]
+        if op == "/":
+            return vals[0] / vals[1]
+        if op == "+":
+            return sum(vals)
+        if op == "*":
+            r = Fraction(1)
+            for v in vals:
+                r *= v
+            return r
+        raise ValueError("unsupported value " + tok)
+    return Fraction(tok.rstrip("?"))
+
+
+def external_check(constraints, names, timeout_s):
+    """decide a (non-linear) query with the z3 command-line binary under a HARD time limit (z3's in-process timeout is not
+    always honoured inside nlsat).  Returns (verdict, values or None)"""
+    import tempfile
+    z3bin = None
+    for cand in ("z3-new", "z3"):
+        from shutil import which
+        if which(cand):
+            z3bin = which(cand)
+            break
+    if z3bin is None:
+        return "unknown", None
+    s = z3.Solver()
+    s.add(constraints)
+    txt = "(set-option :pp.decimal true)\n(set-option :pp.decimal_precision 25)\n" + s.to_smt2()
+    if names:
+        txt += "\n(get-value (" + " ".join("|%s|" % n for n in names) + "))\n"
+    fd, path = tempfile.mkstemp(suffix=".smt2", prefix="symq_")
+    os.write(fd, txt.encode())
+    os.close(fd)
+    try:
+        p = subprocess.run([z3bin, f"-T:{int(max(1, timeout_s))}", path], capture_output=True, text=True, timeout=timeout_s + 10)
+        out = p.stdout
+    except subprocess.TimeoutExpired:
+        return "unknown", None
+    finally:
+        try:
+            os.unlink(path)
+        except OSError:
+            pass
+    lines = out.strip().split("\n")
+    verdict = lines[0].strip() if lines else "unknown"
+    if os.environ.get("SYMQ_DEBUG"):
+        print("external_check:", verdict, out[:300].replace("\n", " | "), file=sys.stderr)
+    if verdict not in ("sat", "unsat"):
+        return "unknown", None          # includes any (error ...) before the verdict
+    if verdict == "unsat" or not names:
+        return verdict, None
+    body = "\n".join(lines[1:])
+    vals = {}
+    import re
+    for m in re.finditer(r"\(\|?([^\s|()]+)\|?\s+((?:\([^()]*(?:\([^()]*\)[^()]*)*\))|[^\s()]+)\)", body):
+        try:
+            vals[m.group(1)] = _sexpr_val(m.group(2))
+        except Exception:
+            pass
+    return "sat", vals
 
 
 def _base_constraints(ob, path, assume_f):
@@ -305,7 +405,7 @@ def decide_path(ob, path, claims, assume_f, replay_fn, dump=None):
             dump["smt2"] = s.to_smt2()[:20000]
         except Exception:
             pass
-    r = _check(s, pv)
+    r = _check(s, pv, ob.solver_timeout_ms / 1000.0 + 5)
     if r == "unsat":
         pv.status = "holds"
         pv.relaxed_only = bool(monos)
@@ -315,16 +415,16 @@ def decide_path(ob, path, claims, assume_f, replay_fn, dump=None):
     if r == "sat":
         candidates.append(("relaxed" if exact_needed else "exact", s.model()))
     if exact_needed:
-        s2 = _solver(ob.exact_timeout_ms)
-        s2.add(base)
-        s2.add(_exact_constraints(path, monos))
-        s2.add(negz)
-        r2 = _check(s2, pv)
+        t_ = time.time()
+        names = [n for n, _, _, _ in ob.inputs]
+        r2, vals2 = external_check(base + _exact_constraints(path, monos) + [negz], names, ob.exact_timeout_ms / 1000.0)
+        pv.queries += 1
+        pv.solver_s += time.time() - t_
         if r2 == "unsat":
             pv.status = "holds"
             return pv
-        if r2 == "sat":
-            candidates.insert(0, ("exact", s2.model()))
+        if r2 == "sat" and vals2 is not None:
+            candidates.insert(0, ("exact", vals2))
         r = r2 if r2 != "unknown" else r
     # robust counterexample: prefer a model inside the assumptions by a margin (survives float replay) that
     # violates an Eq claim by a wide margin
@@ -337,15 +437,27 @@ def decide_path(ob, path, claims, assume_f, replay_fn, dump=None):
                 negw = _claims_neg(claims, thr)
                 if negw.k == "const" and not negw.a:
                     continue
+                negwz = negw.z3()       # registers the claim's monomials before the exact constraints are collected
                 s3 = _solver(min(ob.solver_timeout_ms, 20000))
                 s3.add(core.bounds_constraints(margin))
                 s3.add([a.tighten(margin).z3() for a in assume_f])
                 s3.add([c.z3() for c in path.pc])
                 s3.add([d[0] for d in path.defs if d[0] is not None])
                 if exact_needed:
-                    s3.add(_exact_constraints(path, set(core.CTX.monos)))
-                s3.add(negw.z3())
-                if _check(s3, pv) == "sat":
+                    t_ = time.time()
+                    r3, vals3 = external_check(list(s3.assertions()) + _exact_constraints(path, set(core.CTX.monos)) + [negwz],
+                                               [n for n, _, _, _ in ob.inputs], 15.0)
+                    pv.queries += 1
+                    pv.solver_s += time.time() - t_
+                    if r3 == "sat" and vals3 is not None:
+                        candidates.insert(0, (f"robust(margin={margin},thr={thr})", vals3))
+                        found = True
+                        break
+                    if r3 == "unknown":
+                        break
+                    continue
+                s3.add(negwz)
+                if _check(s3, pv, 25.0) == "sat":
                     candidates.insert(0, (f"robust(margin={margin},thr={thr})", s3.model()))
                     found = True
                     break
@@ -353,7 +465,7 @@ def decide_path(ob, path, claims, assume_f, replay_fn, dump=None):
                 break
     for kind, model in candidates:
         try:
-            vals = _model_inputs(ob, model)
+            vals = _values_inputs(ob, model) if isinstance(model, dict) else _model_inputs(ob, model)
         except Exception as e:
             pv.detail += f"[model extraction failed: {e}] "
             continue
@@ -518,9 +630,11 @@ def run_obligation(ob, seed=0, tier="quick", collect_functions=True):
                 s.add(_base_constraints(ob, p, assume_f))
                 r = _check(s, pv)
                 et = type(p.value).__name__
+                ext_vals = None
                 if r != "unsat" and (p.monos or any(d[1] is not None for d in p.defs)):
-                    s.add(_exact_constraints(p, set(p.monos)))
-                    r = _check(s, pv)
+                    r, ext_vals = external_check(_base_constraints(ob, p, assume_f) + _exact_constraints(p, set(p.monos)),
+                                                 [n for n, _, _, _ in ob.inputs], min(30.0, ob.exact_timeout_ms / 1000.0))
+                    pv.queries += 1
                 if r == "unsat":
                     pv.status = "holds"
                     pv.detail = "exception path infeasible"
@@ -528,7 +642,7 @@ def run_obligation(ob, seed=0, tier="quick", collect_functions=True):
                     done = False
                     if r == "sat":
                         try:
-                            vals = _model_inputs(ob, s.model())
+                            vals = _values_inputs(ob, ext_vals) if ext_vals is not None else _model_inputs(ob, s.model())
                             ok, label, detail = replay_concrete(ob, vals, "exc", et)
                             if ok:
                                 pv.status, pv.replay, pv.label, pv.detail = "violation", vals, label, detail
@@ -558,7 +672,7 @@ def run_obligation(ob, seed=0, tier="quick", collect_functions=True):
                 break
         res["smt2_sample"] = dump["smt2"]
         # vacuity / reachability witness + translator validation
-        if paths and not res["violations"]:
+        if paths and not res["violations"] and ob.tv_points > 0:
             ndone, problems = translator_validation(ob, paths, rng, assume_f)
             res["tv_points"] = ndone
             if ndone == 0:
@@ -653,6 +767,74 @@ def _worker(args):
     return idx, r
 
 
+def _blank_result(spec, why):
+    return {"name": spec.name, "cfg": spec.cfg, "ident": spec.name + "[" + json.dumps(spec.cfg, sort_keys=True, default=str) + "]",
+            "status": "inconclusive", "violations": [], "paths": 0, "queries": 0, "solver_s": 0.0, "symexec_s": 0.0,
+            "inconclusive": [why], "functions": [], "stubs": [], "outside": [], "n_inputs": 0, "tv_points": 0, "relaxed_paths": 0,
+            "branch_queries": 0, "smt2_sample": None, "bounds": "", "wall_s": 0.0}
+
+
+def _child(conn, modname, tier, idx, seed):
+    try:
+        r = _worker((modname, tier, idx, seed))
+        conn.send(r)
+    except BaseException as e:      # noqa
+        try:
+            conn.send((idx, None))
+        except Exception:
+            pass
+    finally:
+        conn.close()
+        os._exit(0)
+
+
+def run_tasks(modname, tier, order, seed, jobs, specs, verbose=False, hard_timeout=None):
+    """one forked process per obligation (isolates solver crashes), at most `jobs` at a time, each under a hard wall-clock
+    limit; a crashed or killed task is reported as inconclusive"""
+    import multiprocessing as mp
+    ctx = mp.get_context("fork")
+    hard_timeout = hard_timeout or float(os.environ.get("VERIF_TASK_TIMEOUT", "900" if tier == "quick" else "3600"))
+    pending = list(order)
+    running = {}
+    results = {}
+    while pending or running:
+        while pending and len(running) < max(1, jobs):
+            idx = pending.pop(0)
+            pc, cc = ctx.Pipe(duplex=False)
+            p = ctx.Process(target=_child, args=(cc, modname, tier, idx, seed))
+            p.daemon = True
+            p.start()
+            cc.close()
+            running[idx] = (p, pc, time.time())
+        done = []
+        for idx, (p, pc, t0) in running.items():
+            r = None
+            if pc.poll():
+                try:
+                    got = pc.recv()
+                    r = got[1]
+                except (EOFError, OSError):
+                    r = None
+                if r is None:
+                    r = _blank_result(specs[idx], "worker process failed while running this obligation")
+            elif not p.is_alive():
+                r = _blank_result(specs[idx], f"worker process died (exit code {p.exitcode}) - solver crash?")
+            elif time.time() - t0 > hard_timeout:
+                p.kill()
+                r = _blank_result(specs[idx], f"hard wall-clock limit {hard_timeout:.0f}s exceeded; task killed")
+            if r is not None:
+                results[idx] = r
+                done.append(idx)
+                p.join(timeout=1)
+                if verbose:
+                    print(f"  [{r['status']}] {r['ident']} paths={r['paths']} q={r['queries']} {r['wall_s']}s", flush=True)
+        for idx in done:
+            running.pop(idx)
+        if not done:
+            time.sleep(0.01)
+    return results
+
+
 def write_replay(prop, res, viol):
     d = os.path.join(VERIF, "replays", prop)
     os.makedirs(d, exist_ok=True)
@@ -685,21 +867,7 @@ def main(prop, modname, extra_engines=None, level="other", argv=None):
             print(specs[i].name, json.dumps(specs[i].cfg, sort_keys=True, default=str))
         return 0
     order = sorted(idxs, key=lambda i: -specs[i].weight)
-    results = {}
-    import multiprocessing as mp
-    if a.jobs > 1 and len(order) > 1:
-        ctx = mp.get_context("fork")
-        with ctx.Pool(min(a.jobs, len(order)), maxtasksperchild=8) as pool:
-            for idx, r in pool.imap_unordered(_worker, [(modname, a.tier, i, seed) for i in order]):
-                results[idx] = r
-                if a.v:
-                    print(f"  [{r['status']}] {r['ident']} paths={r['paths']} q={r['queries']} {r['wall_s']}s", flush=True)
-    else:
-        for i in order:
-            idx, r = _worker((modname, a.tier, i, seed))
-            results[idx] = r
-            if a.v:
-                print(f"  [{r['status']}] {r['ident']} paths={r['paths']} q={r['queries']} {r['wall_s']}s", flush=True)
+    results = run_tasks(modname, a.tier, order, seed, a.jobs, specs, verbose=a.v)
     extra = []
     if extra_engines and a.only is None:
         for eng in extra_engines:
